@@ -117,11 +117,14 @@ package core
 //@   modifies core.currentContextDirective, core.currentDirective, core.directives, heap(Directive.Parent), heap(Directive.depth), heap(Directive.Children)
 //@   ensures ret == nil ==> CoreScanInv(core) && core.currentDirective == nil
 
+// one "(" per directive: a second one is an error at that byte (it used to be absorbed, so that "( (" was closed by one ")")
 //@ func (*JApiCore).processContextBegin
-//@   tag C06 C01
-//@   requires CoreScanInv(core) && core.currentDirective != nil
+//@   tag C06 C01 C02
+//@   requires CoreScanInv(core) && core.currentDirective != nil && LexOK(lexeme) && lexeme.file == core.scanner.file
 //@   modifies core.currentDirective.HasExplicitContext
-//@   ensures core.currentDirective.HasExplicitContext
+//@   ensures [C06] old(core.currentDirective.HasExplicitContext) ==> ret != nil
+//@   ensures [C06] !old(core.currentDirective.HasExplicitContext) ==> ret == nil && core.currentDirective.HasExplicitContext
+//@   ensures [C02] ret != nil ==> ret.file == lexeme.file && ret.index == lexeme.begin
 
 //@ func coordsFromLexeme
 //@   inline
